@@ -300,3 +300,36 @@ Proof.
   f_equal. destruct r as [sch nl pth q f]. cbn [scheme netloc path query fragment] in *.
   subst nl hp. destruct sch, q, f, oport, ou, ow; cbn [oget]; rewrite <- ?app_assoc, ?app_nil_r; reflexivity.
 Qed.
+
+(* ---------------- the port splitter on a string without ':' ---------------- *)
+Lemma lit_test_plain (f : rflags) (l c : N) : icase f = false -> lit_test f l c = (c =? l).
+Proof. intros H. unfold lit_test. rewrite H. reflexivity. Qed.
+
+Lemma finditer_lit_absent (f : rflags) (l : N) (x : re) : icase f = false ->
+  forall fuel s noe, mem l (rest s) = false -> finditer_go f (Seq (Lit l) x) fuel s noe = [].
+Proof.
+  intros Hf. induction fuel as [|fuel IH]; intros s noe Hm; [reflexivity|].
+  cbn [finditer_go mt rest]. destruct (rest s) as [|c t] eqn:Er; [reflexivity|].
+  cbn [mem] in Hm. apply orb_false_iff in Hm. destruct Hm as [Hc Ht].
+  rewrite lit_test_plain by exact Hf.
+  assert (c =? l = false) as -> by exact Hc.
+  apply IH. cbn [st_step rest]. exact Ht.
+Qed.
+
+Lemma port_splitter_no_colon (hp : str) :
+  mem 58 hp = false -> re_split PORT_SPLITTER_f PORT_SPLITTER PORT_SPLITTER_g hp None = [Some hp].
+Proof.
+  intros H. unfold re_split, re_finditer.
+  destruct pin_PORT_SPLITTER as (-> & Hi & ->).
+  rewrite finditer_lit_absent; [reflexivity|exact Hi|exact H].
+Qed.
+
+(* hence, with no port and no bracketed host, nothing is assumed about the splitter *)
+Corollary stems_round_trip_no_colon (t : snode) (r : SplitResult) (ou ow : option str) (hp : str) :
+  auth_of (netloc r) = (ou, ow, hp) -> mem 58 hp = false ->
+  (path r = [] \/ exists p, path r = 47 :: p) ->
+  lru_to_url_stems (lru_stems_from_parsed t r false) = Ok (urlunsplit r).
+Proof.
+  intros Ha Hm Hp. apply (stems_round_trip t r ou ow hp hp None Ha); [|rewrite app_nil_r; reflexivity|exact Hp].
+  apply port_splitter_no_colon. exact Hm.
+Qed.
